@@ -25,6 +25,9 @@ RULE = (
     "(the list handed to set_stride_patterns and the final snax_stream.streaming_region) the per-step ordered 8-byte words are expanded with the streamer address "
     "model. Required: same number of steps and per step the same byte sequence. Patterns the accelerator adds for ports without a schedule operand must be disabled "
     "(all bounds 0) or a copy of the pattern they mirror / a zero-pointer operand. Cases for which the conversion warns 'Non-contiguous access' are outside the domain. "
+    "A quarter of the cases place a second operation of the same kind and another shape in a function in front of @main in the same module (one pass "
+    "run converts both; @main's schedule and region are the ones compared); further variants: given tiled-strided layouts of up to three tile levels, "
+    "i8-output gemmx kernels and the rescale-only function, one buffer for two operands, configured streamer geometries. "
     "Non-trivial: >= 2 temporal steps and an operand with element size < 8 bytes or a spatial fill-up/merge; distinct by recipe hash. "
     "Sub xdma_streams (snax_xdma, registered in a private context the way snaxc/tools/config_parser.py does it): a dart.operation with one extension kernel - "
     "kernel.add i32 (AddExtension), kernel.rescale i32->i8 (RescaleDownExtension), kernel.rescale i8->i32 (RescaleUpExtension) - on rank-1 and rank-2 operands "
